@@ -1,5 +1,5 @@
 (* C18, second part: the final theorems of Proof/POwn2*.v, for re-export in Props/Properties_C18.v. *)
-Require Import Htp.Model.Base Htp.Model.MOwn Htp.Model.MOwnCases Htp.Model.MOwn2 Htp.Proof.POwn Htp.Proof.POwn2 Htp.Proof.POwn2Uri.
+Require Import Htp.Model.Base Htp.Model.MOwn Htp.Model.MOwnCases Htp.Model.MOwn2 Htp.Proof.POwn Htp.Proof.POwn2 Htp.Proof.POwn2Uri Htp.Proof.POwn2Res Htp.Proof.POwn2Dec.
 
 (* ===== FINAL THEOREMS (every one: Closed under the global context) ===== *)
 (* -- htp_parse_hostport / htp_parse_header_hostport / htp_parse_uri_hostport *)
@@ -22,4 +22,21 @@ Print Assumptions ow_then_destroy_clean_normalize_parsed_uri.
 Print Assumptions ow_parse_normalize_free_clean.
 Print Assumptions ow_safe_tx_state_request_line.
 Print Assumptions ow_then_destroy_clean_tx_state_request_line.
+(* -- htp_process_response_header_generic / htp_parse_response_header_generic *)
+Print Assumptions ow_safe_process_response_header.
+Print Assumptions ow_then_destroy_clean_process_response_header.
+Print Assumptions ow_process_response_header_keeps_shape.
+(* -- htp_connp_res_buffer / htp_connp_res_consolidate_data / htp_connp_res_clear_buffer *)
+Print Assumptions ow_safe_res_buffer.
+Print Assumptions ow_then_destroy_clean_res_buffer.
+Print Assumptions ow_then_destroy_clean_res_consolidate.
+Print Assumptions ow_then_destroy_clean_res_buffer_clear.
+(* -- htp_gzip_decompressor_create / destroy, the chains, htp_connp_destroy_all with chains, htp_tx_state_response_headers *)
+Print Assumptions ow_safe_decompressor_create.
+Print Assumptions ow_then_destroy_clean_decompressor_create.
+Print Assumptions ow_destroy_decompressors_clean.
+Print Assumptions ow_connp2_destroy_all_clean.
+Print Assumptions ow_safe_tx_state_response_headers.
+Print Assumptions ow_then_destroy_clean_tx_state_response_headers.
+Print Assumptions ow_tx_state_response_headers_twice_clean.
 (* ===== END FINAL THEOREMS ===== *)
